@@ -26,7 +26,8 @@ ENCODED = ["twisted.logger._observer:LogPublisher.__call__", "twisted.logger._ob
 BOUNDS = {"quick": {"obs": 3, "ev": 3, "slots": 2, "ns": 4, "pfx": 3, "buf": 4},
           "thorough": {"obs": 3, "ev": 4, "slots": 3, "ns": 5, "pfx": 3, "buf": 6}}
 B = {}
-BOUNDS_TEXT = ("publisher: <= obs observers (optionally one removed again, one registered twice), <= ev events, "
+BOUNDS_TEXT = ("publisher: <= obs observers (optionally one removed again, first and last registered twice; observers "
+               "either callable instances or bound methods obtained afresh at each add/remove), <= ev events, "
                "every observer has independent symbolic raise flags for each of the first slots-1 events, for all "
                "later events together, and for failure reports; filter: namespace "
                "any string of <= ns characters, two configured prefixes any strings of <= pfx characters "
@@ -77,6 +78,11 @@ class _Obs:
         self.world = world
 
     def __call__(self, event):
+        return self.emit(event)
+
+    def emit(self, event):
+        # also used as a BOUND METHOD observer: `obs.emit` is a fresh (equal, not identical) object
+        # on every attribute access
         w = self.world
         if "idx" in event:
             desc = ("ev", event["idx"])
@@ -85,6 +91,7 @@ class _Obs:
         else:
             f = event.get("log_failure")
             ob = event.get("observer")
+            ob = getattr(ob, "__self__", ob)      # the instance behind a bound method observer
             if (not isinstance(f, Failure) or not isinstance(f.value, _Boom) or not isinstance(ob, _Obs)
                     or f.value.who != ob.i or event.get("log_format") != OBSERVER_DISABLED
                     or event.get("log_level") is not LogLevel.critical):
@@ -121,20 +128,28 @@ def _model_publish(w, members, desc, out):
         _model_publish(w, [x for x in members if x != b], ("fail", b, desc), out)
 
 
-def _run_pub(nobs, nev, rz, rem, dup):
+def _run_pub(nobs, nev, rz, rem, dup, bm=False):
     w = _PubWorld(rz, nev)
     obs = [_Obs(i, w) for i in range(nobs)]
+
+    def handle(o):
+        # what is handed to addObserver/removeObserver: the callable instance itself, or (bm) its
+        # bound method, obtained afresh at every registry operation
+        return o.emit if bm else o
+
     pub = LogPublisher()
     for o in obs:
-        pub.addObserver(o)
+        pub.addObserver(handle(o))
     members = list(range(nobs))
     if dup and nobs > 0:
-        pub.addObserver(obs[0])          # registering twice must not deliver twice
+        pub.addObserver(handle(obs[0]))          # registering twice must not deliver twice
+        if nobs > 1:
+            pub.addObserver(handle(obs[nobs - 1]))
     if 0 <= rem < nobs:
-        pub.removeObserver(obs[rem])
+        pub.removeObserver(handle(obs[rem]))     # ... and one removal removes it altogether
         members.remove(rem)
     elif rem >= nobs:
-        pub.removeObserver(_Obs(9, w))   # removing a stranger is a no-op
+        pub.removeObserver(handle(_Obs(9, w)))   # removing a stranger is a no-op
     for e in w.events:
         pub(e)
     cover()
@@ -154,13 +169,14 @@ def publisher(nobs: int, nev: int, rz: List[int]) -> bool:
     return _run_pub(_conc(nobs, 0, B["obs"]), _conc(nev, 0, B["ev"]), rz, -1, False)
 
 
-def pub_registry(nobs: int, rz: List[int], rem: int, dup: bool) -> bool:
+def pub_registry(nobs: int, rz: List[int], rem: int, dup: bool, bm: bool) -> bool:
     """
     pre: 0 <= nobs <= B['obs'] and len(rz) == 12 and -1 <= rem <= 2
     post: _
     """
-    # one event; observers registered twice / removed again / a stranger removed
-    return _run_pub(_conc(nobs, 0, B["obs"]), 1, rz, _conc(rem, -1, 2), dup)
+    # one event; observers registered twice / removed again / a stranger removed; bm: observers are
+    # bound methods looked up afresh for every add/remove (equal but not identical objects)
+    return _run_pub(_conc(nobs, 0, B["obs"]), 1, rz, _conc(rem, -1, 2), dup, bm)
 
 
 # ---- (b) level filter -----------------------------------------------------------------------------
